@@ -9,11 +9,18 @@ package gtree
 //@ pred wgenOK(rg *rootGenerator): rg != nil && rg.counter != nil && rg.scanner != nil && rg.nodeGenerator != nil && rg.nodeGenerator.parser != nil && md.parserOK(rg.nodeGenerator.parser) && 0 <= rg.scanner.pos && rg.scanner.pos <= len(rg.scanner.lines) && !rg.scanner.failed
 
 //@ func gtree.newRootGenerator
+//@   modifies lnNodes
+//@   ghostset lnNodes := emptyseq(lnNodes)
 //@   ensures fresh: fresh(result) && wgenOK(result) && result.scanner.pos == 0 && !result.nodeGenerator.parser.isSharpRoot && result.nodeGenerator.parser.spaces == 0 && result.nodeGenerator.parser.sep == ""
 
 //@ func gtree.rootGenerator.generate
 //@   requires ok: wgenOK(rg)
-//@   modifies Node.children, Node.parent, list.List.view, list.Element.backOf, rg.counter.n, rg.scanner.pos, rg.scanner.failed, rg.nodeGenerator.parser.isSharpRoot, rg.nodeGenerator.parser.spaces, rg.nodeGenerator.parser.sep
+//@   requires start: rg.scanner.pos == 0 && len(lnNodes) == 0
+//@   modifies Node.children, Node.parent, list.List.view, list.Element.backOf, rg.counter.n, rg.scanner.pos, rg.scanner.failed, rg.nodeGenerator.parser.isSharpRoot, rg.nodeGenerator.parser.spaces, rg.nodeGenerator.parser.sep, lnNodes
+//@   after generate: lnNodes := (result0 == nil && result1 == nil) ? lnNodes ++ seqof(nil) : lnNodes
+//@   after push: lnNodes := lnNodes ++ seqof(currentNode)
+//@   after dfs: lnNodes := result ? lnNodes ++ seqof(as(last(stack.nodes.view), Node)) : lnNodes
+//@   ensures lines [C17,C02]: result1 == nil ==> len(lnNodes) == len(rg.scanner.lines) && (forall j int :: {lnNodes[j]} 0 <= j && j < len(rg.scanner.lines) ==> (md.allSpace(rg.scanner.lines[j]) ==> lnNodes[j] == nil) && (!md.allSpace(rg.scanner.lines[j]) ==> lineRepr(rg.scanner.lines[j], lnNodes[j]) && (lnNodes[j].hierarchy == 1 ==> contains(result0, lnNodes[j]))))
 //@   ensures roots [C17]: result1 == nil ==> (forall k int :: {result0[k]} 0 <= k && k < len(result0) ==> result0[k] != nil && result0[k].hierarchy == 1)
 //@   ensures consumed [C17]: result1 == nil ==> rg.scanner.pos == len(rg.scanner.lines) && !rg.scanner.failed
 //@   ensures readerr [C17]: rg.scanner.failed ==> result1 == rg.scanner.err
@@ -24,6 +31,8 @@ package gtree
 //@   invariant open: stack != nil ==> chain(stack)
 //@   invariant closed: stack == nil ==> len(roots) == 0
 //@   invariant blanks: (forall j int :: {rg.scanner.lines[j]} 0 <= j && j < rg.scanner.pos ==> md.allSpace(rg.scanner.lines[j])) ==> len(roots) == 0 && stack == nil
+//@   invariant count [C17,C02]: len(lnNodes) == rg.scanner.pos
+//@   invariant lines [C17,C02]: forall j int :: {lnNodes[j]} 0 <= j && j < rg.scanner.pos ==> (md.allSpace(rg.scanner.lines[j]) ==> lnNodes[j] == nil) && (!md.allSpace(rg.scanner.lines[j]) ==> lineRepr(rg.scanner.lines[j], lnNodes[j]) && (lnNodes[j].hierarchy == 1 ==> contains(roots, lnNodes[j])))
 //@   decreases len(rg.scanner.lines) - rg.scanner.pos
 
 // ---------------------------------------------------------------------------------------------
@@ -188,6 +197,6 @@ func specWasmDryReport(ext []string, roots []*Node, i int) string {
 
 // Output of the wasm variant: the same rendering clause as OutputFromMarkdown of the default build.
 //@ func gtree.Output
-//@   modifies Node.children, Node.parent, Node.brnch.value, Node.brnch.path, Node.name, list.List.view, list.Element.backOf, counter.n, lastConfig, bufio.Scanner.pos, bufio.Scanner.failed, markdown.Parser.isSharpRoot, markdown.Parser.spaces, markdown.Parser.sep, out, wfail
+//@   modifies Node.children, Node.parent, Node.brnch.value, Node.brnch.path, Node.name, list.List.view, list.Element.backOf, counter.n, lastConfig, bufio.Scanner.pos, bufio.Scanner.failed, markdown.Parser.isSharpRoot, markdown.Parser.spaces, markdown.Parser.sep, out, wfail, lnNodes
 //@   use lemma lemmaBakedAllIsRenderAll
 //@   ensures render [C17]: exists c *config :: {witness(cfg)} fresh(c) && (c.encode == encodeDefault && !c.dryrun && result == nil ==> wfail == old(wfail) && (exists rs []*Node :: {witness(roots)} allRoots(rs) && out[w] == old(out[w]) ++ specRenderAll(c.lastNodeFormat, c.intermedialNodeFormat, rs, len(rs))))
